@@ -43,6 +43,9 @@ type c16Case struct {
 	useDefault bool   // through alt.DefaultRecomposer (alt.Recompose / oj.Unmarshal without argument)
 	byPtr      bool   // the encoder is handed &v (addressable: the unsafe offset path) instead of v
 	text       []byte // routes oj and sen: what the writer wrote (set by tree)
+	// what the last two runs gave (without / with the history): the value, or the error text
+	got  [2]reflect.Value
+	errs [2]string
 }
 
 // arg is what the encoder is handed.
@@ -311,9 +314,16 @@ func (c *c16Case) run(t any, withHist bool) (exact, norm string) {
 			}
 		}
 	}()
+	wi := 0
+	if withHist {
+		wi = 1
+	}
+	c.got[wi], c.errs[wi] = reflect.Value{}, ""
 	if err != nil {
+		c.errs[wi] = err.Error()
 		return "error", "error"
 	}
+	c.got[wi] = tgt.Elem()
 	exact, norm = valueString(c.d, tgt.Elem()), normValue(c.d, tgt.Elem(), c.tagsUsed())
 	if c.route == "oj" {
 		exact, norm = ifaceFloats(exact), ifaceFloats(norm)
@@ -473,17 +483,19 @@ func (c *c16Case) knownReasons() []string {
 	f := valFacts{ck: c.createKey()}
 	facts(c.d, c.v, false, &f)
 	var out []string
-	if f.ifaceCK {
+	// each live family is named only when the outcome is the one ITS defect predicts for this case
+	if f.bytes && c.errs[0] != "" && bytesTextRe.MatchString(c.errs[0]) {
+		// a []byte was written as text (BytesAsString/Base64 of alt.Decompose; the appendJSON switch of
+		// oj/sen for a []byte held by an interface or at top level) and Recompose refuses the string
+		out = append(out, "C16-bytes-text")
+	}
+	if f.ifaceCK && c.createKeyExplains(c.v, 0, false) {
 		out = append(out, "C16-createkey-member")
 	}
 	collision := c.nameCollision(false)
-	if collision && (f.ifaceStruct || f.ifaceCK) {
+	if collision && (f.ifaceStruct || f.ifaceCK) && c.createKeyExplains(c.v, 0, true) {
 		// create-key NAMES in the data are resolved by bare name (by design unless FullTypePath)
 		out = append(out, "C16-createkey-bare-name")
-	}
-	if f.bytes && (c.route != "decompose" || c.spec.BytesAs != ojg.BytesAsArray) {
-		// (the Marshal route writes numbers as long as C15-bytes-as-slice stands, and then round-trips)
-		out = append(out, "C16-bytes-text")
 	}
 	if len(out) > 0 {
 		return out
@@ -501,6 +513,89 @@ func (c *c16Case) knownReasons() []string {
 		out = append(out, "C16-registry-bare-name")
 	}
 	return out
+}
+
+var bytesTextRe = regexp.MustCompile(`can only recompose a \[\]uint8 from a \[\]any, not a string`)
+
+// dataDrivenSlot: the interface holds what the create key resolves through the registry — a struct or
+// pointer to one (written with a create key), or something with a map that has a member named like
+// the create key.
+func dataDrivenSlot(e reflect.Value, ck string, structs bool) bool {
+	f := valFacts{ck: ck}
+	holder := reflect.New(anyType).Elem()
+	holder.Set(e)
+	facts(mustDescribe(anyType), holder, false, &f)
+	return f.ifaceCK || structs && f.ifaceStruct
+}
+
+// maskedEqual: a and b (of one type) are equal (nil ~ empty) outside of the interface slots for which
+// masked answers true on a's content. The defects about create-key resolution predict exactly this:
+// the value comes back right everywhere but in those slots.
+func maskedEqual(a, b reflect.Value, masked func(reflect.Value) bool, depth int) bool {
+	if depth > 60 {
+		return true
+	}
+	switch a.Kind() {
+	case reflect.Interface:
+		if a.IsNil() {
+			return b.IsNil()
+		}
+		if masked(a.Elem()) {
+			return true
+		}
+		d := mustDescribe(anyType)
+		return ifaceFloats(normTokens(valueString(d, a))) == ifaceFloats(normTokens(valueString(d, b)))
+	case reflect.Ptr:
+		if a.IsNil() || b.IsNil() {
+			return a.IsNil() == b.IsNil()
+		}
+		return maskedEqual(a.Elem(), b.Elem(), masked, depth+1)
+	case reflect.Slice, reflect.Array:
+		if a.Len() != b.Len() {
+			return false
+		}
+		for i := 0; i < a.Len(); i++ {
+			if !maskedEqual(a.Index(i), b.Index(i), masked, depth+1) {
+				return false
+			}
+		}
+		return true
+	case reflect.Map:
+		if a.Len() != b.Len() {
+			return false
+		}
+		for _, k := range a.MapKeys() {
+			bv := b.MapIndex(k)
+			if !bv.IsValid() || !maskedEqual(a.MapIndex(k), bv, masked, depth+1) {
+				return false
+			}
+		}
+		return true
+	case reflect.Struct:
+		for i := 0; i < a.NumField(); i++ {
+			if !exported(a.Type().Field(i).Name) {
+				continue
+			}
+			if !maskedEqual(a.Field(i), b.Field(i), masked, depth+1) {
+				return false
+			}
+		}
+		return true
+	}
+	return a.Interface() == b.Interface()
+}
+
+// createKeyExplains: the outcome run `wi` gave is the reference value `ref` everywhere outside the
+// interface slots the create key drives (or the call failed inside one: an error cannot be located).
+func (c *c16Case) createKeyExplains(ref reflect.Value, wi int, structs bool) bool {
+	if !c.got[wi].IsValid() {
+		return c.errs[wi] != "" && !bytesTextRe.MatchString(c.errs[wi])
+	}
+	if !ref.IsValid() {
+		return false
+	}
+	ck := c.createKey()
+	return maskedEqual(ref, c.got[wi], func(e reflect.Value) bool { return dataDrivenSlot(e, ck, structs) }, 0)
 }
 
 // nestEmbedExplains: the outcome is the value with every EMBEDDED field left at its zero value — what
@@ -775,11 +870,12 @@ func checkC16(d *lib.Driver, c *c16Case) error {
 	if len(c.hist) > 0 {
 		if normH != norm0 {
 			var reasons []string
-			if fc.ifaceCK {
+			// the history changes the outcome only inside the slots the create key drives
+			if fc.ifaceCK && c.createKeyExplains(c.got[0], 1, false) {
 				reasons = append(reasons, "C16-createkey-member")
 			}
 			collision := c.nameCollision(true)
-			if collision && dataDriven {
+			if collision && dataDriven && (c.createKeyExplains(c.got[0], 1, true) || !c.got[0].IsValid() && c.errs[0] != "") {
 				reasons = append(reasons, "C16-createkey-bare-name")
 			}
 			if len(reasons) == 0 {
